@@ -3,6 +3,7 @@
 
   output reset <S|C> <name> <on_output events> <on_every_output events>     -> ok
   output assign <value>            -> err ValueError | ok <stored output> r<-|0|1> <act> <act> …
+  output fsm <calc_output value>   -> skip (UNDEF: output left alone) | as `assign`
 
   event list:  `-` or events joined by `|`;   event: `<dest>:<etype>:<filters>`;
   filters: `-` or scripts joined by `+`;  script: A | R | S~key~val | D~key | C~src~dst | T~key | U~key | X | M~data
@@ -75,6 +76,19 @@ def handle (s : DState) : List String → DState × String
        | .valueError => "err ValueError"
        | .ok st => stepStr s.kind st)
     | none => (s, "bad-op")
+  | ["fsm", v] =>
+    -- an accepted FSM transition whose new state has the output `v` (sequential senders only)
+    match Val.parse v, s.kind with
+    | some v, .sblock =>
+      match fsmTransition s.cfg s.out v with
+      | none => (s, "skip")
+      | some res =>
+        let r : Rec := ⟨s.out, v, res⟩
+        ({ s with out := r.after },
+         match r.res with
+         | .valueError => "err ValueError"
+         | .ok st => stepStr s.kind st)
+    | _, _ => (s, "bad-op")
   | ["out"] => (s, s.out.render)
   | _ => (s, "bad-op")
 
